@@ -249,6 +249,7 @@ ANY_METHODS.update({
     # (source name, target name, attribute dict) triples (assumed contract A4)
     "edges": {"pure": True, "returns": SEQ(FIXTUP(STR, STR, DICT(STR, ANY))), "raises": []},
     # networkx `G.subgraph(names)` (assumed contract A4: total; the induced view, its content is not used by verified code)
+    "hexdigest": {"pure": False, "returns": STR, "raises": []},   # hmac / hashlib objects
     "subgraph": {"pure": False, "returns": ANY, "raises": []},
     # `.copy()` of an untyped value (a networkx graph view): total, an unspecified object
     "copy": {"pure": False, "returns": ANY, "raises": []},
@@ -437,6 +438,12 @@ def _lib_exc_info(ex, args, kwargs, s):
     yield s, TupVal([Val(smt.fresh_v("exc_type"), ANY), Val(smt.fresh_v("exc_val"), ANY), Val(smt.fresh_v("exc_tb"), ANY)])
 
 
+def _lib_hmac_new(ex, args, kwargs, s):
+    """hmac.new(key, msg, digestmod) (assumed contract A4): total; an opaque MAC object.  The arguments are recorded."""
+    s.trace.append(("call", "hmac.new", {"args": args, "kwargs": kwargs}))
+    yield s, Val(smt.fresh_v("mac"), ANY)
+
+
 def _lib_compare_digest(ex, args, kwargs, s):
     """hmac.compare_digest (assumed contract A4): total, returns a bool."""
     v = BVal(smt.fresh_bool("digest_eq"))
@@ -513,6 +520,7 @@ LIBRARY = {
     "_pickle.loads": _lib_pickle_loads,
     "_pickle.dumps": _lib_pickle_dumps,
     "time.time": _lib_time,
+    "hmac.new": _lib_hmac_new,
     "sys.exc_info": _lib_exc_info,
     "warnings.warn": _lib_warn,
     "_warnings.warn": _lib_warn,
